@@ -60,9 +60,13 @@ func (fr *Frame) execMapUpdate(x *ssa.MapUpdate, st *State) *State {
 func (fr *Frame) mapFrameGoal(name string, m Term) Term {
 	vc := fr.vc
 	alts := []Term{Le(vc.alloc0, m)}
+	hname, _ := vc.mapHeap(vc.headerMapType())
 	for _, it := range vc.modSet {
 		if it.ghost == "map:"+name {
 			alts = append(alts, Eq(m, it.ptr))
+		}
+		if it.headers && name == hname {
+			return True
 		}
 	}
 	return Or(alts...)
